@@ -107,42 +107,50 @@ def create (dsap ssap : Nat) : Llc := ⟨dsap % 256, ssap % 256, .information, 2
 def formatOfNat : Nat → Option LlcFormat
   | 0 => some .information | 1 => some .supervisory | 3 => some .unnumbered | _ => none
 
+/-- `LLC::group(bool)` / `LLC::response(bool)`: lowest bit of the DSAP / SSAP -/
+def setGroup (l : Llc) (b : Bool) : Llc := { l with dsap := l.dsap / 2 * 2 + b2n b }
+def setResponse (l : Llc) (b : Bool) : Llc := { l with ssap := l.ssap / 2 * 2 + b2n b }
+/-- `LLC::send_seq_number(uint8_t)`: information frames only -/
+def setSendSeq (l : Llc) (n : Nat) : Llc :=
+  if l.typ == .information then { l with c0 := l.c0 % 2 + n % 128 * 2 } else l
+/-- `LLC::receive_seq_number(uint8_t)`: information and supervisory frames -/
+def setRecvSeq (l : Llc) (n : Nat) : Llc :=
+  match l.typ with
+  | .unnumbered => l
+  | _ => { l with c1 := l.c1 % 2 + n % 128 * 2 }
+/-- `LLC::poll_final(bool)` -/
+def setPollFinal (l : Llc) (b : Bool) : Llc :=
+  match l.typ with
+  | .unnumbered => { l with c0 := l.c0 % 16 + b2n b * 16 + l.c0 / 32 * 32 }
+  | _ => { l with c1 := l.c1 / 2 * 2 + b2n b }
+/-- `LLC::supervisory_function(SupervisoryFunctions)`: supervisory frames only -/
+def setSupervisory (l : Llc) (n : Nat) : Llc :=
+  if l.typ == .supervisory then { l with c0 := l.c0 % 4 + n % 4 * 4 + l.c0 / 16 * 16 } else l
+/-- `LLC::modifier_function(ModifierFunctions)`: `mod_func1 = f >> 3`, `mod_func2 = f & 7`; unnumbered frames only -/
+def setModifier (l : Llc) (n : Nat) : Llc :=
+  if l.typ == .unnumbered then
+    { l with c0 := l.c0 % 4 + (n % 32 / 8) * 4 + l.c0 / 16 % 2 * 16 + n % 8 * 32 } else l
+/-- `LLC::add_xid_information(xid_id, llc_type_class, receive_window)` -/
+def addXid (l : Llc) (a b c : Nat) : Llc :=
+  { l with infoLen := l.infoLen + 3, infos := l.infos ++ [[UInt8.ofNat a, UInt8.ofNat b, UInt8.ofNat c]] }
+/-- `LLC::clear_information_fields()` -/
+def clearInfos (l : Llc) : Llc := { l with infoLen := 0, infos := [] }
+
 def apply (l : Llc) : List String → Out Llc
   | ["dsap", v] => match natArg v with | some n => .ok { l with dsap := n % 256 } | none => .throw .stdOther
   | ["ssap", v] => match natArg v with | some n => .ok { l with ssap := n % 256 } | none => .throw .stdOther
-  | ["group", v] => match boolArg v with
-    | some b => .ok { l with dsap := l.dsap / 2 * 2 + b2n b }
-    | none => .throw .stdOther
-  | ["response", v] => match boolArg v with
-    | some b => .ok { l with ssap := l.ssap / 2 * 2 + b2n b }
-    | none => .throw .stdOther
+  | ["group", v] => match boolArg v with | some b => .ok (l.setGroup b) | none => .throw .stdOther
+  | ["response", v] => match boolArg v with | some b => .ok (l.setResponse b) | none => .throw .stdOther
   | ["type", v] => match (natArg v).bind formatOfNat with | some t => .ok (l.setType t) | none => .throw .stdOther
-  | ["send_seq_number", v] => match natArg v with
-    | some n => .ok (if l.typ == .information then { l with c0 := l.c0 % 2 + n % 128 * 2 } else l)
-    | none => .throw .stdOther
-  | ["receive_seq_number", v] => match natArg v with
-    | some n => .ok (match l.typ with
-        | .unnumbered => l
-        | _ => { l with c1 := l.c1 % 2 + n % 128 * 2 })
-    | none => .throw .stdOther
-  | ["poll_final", v] => match boolArg v with
-    | some b => .ok (match l.typ with
-        | .unnumbered => { l with c0 := l.c0 % 16 + b2n b * 16 + l.c0 / 32 * 32 }
-        | _ => { l with c1 := l.c1 / 2 * 2 + b2n b })
-    | none => .throw .stdOther
-  | ["supervisory_function", v] => match natArg v with
-    | some n => .ok (if l.typ == .supervisory then { l with c0 := l.c0 % 4 + n % 4 * 4 + l.c0 / 16 * 16 } else l)
-    | none => .throw .stdOther
-  | ["modifier_function", v] => match natArg v with
-    | some n => .ok (if l.typ == .unnumbered then
-        { l with c0 := l.c0 % 4 + (n % 32 / 8) * 4 + l.c0 / 16 % 2 * 16 + n % 8 * 32 } else l)
-    | none => .throw .stdOther
+  | ["send_seq_number", v] => match natArg v with | some n => .ok (l.setSendSeq n) | none => .throw .stdOther
+  | ["receive_seq_number", v] => match natArg v with | some n => .ok (l.setRecvSeq n) | none => .throw .stdOther
+  | ["poll_final", v] => match boolArg v with | some b => .ok (l.setPollFinal b) | none => .throw .stdOther
+  | ["supervisory_function", v] => match natArg v with | some n => .ok (l.setSupervisory n) | none => .throw .stdOther
+  | ["modifier_function", v] => match natArg v with | some n => .ok (l.setModifier n) | none => .throw .stdOther
   | ["add_xid_information", a, b, c] => match natArg a, natArg b, natArg c with
-    | some a, some b, some c =>
-      .ok { l with infoLen := l.infoLen + 3,
-                   infos := l.infos ++ [[UInt8.ofNat a, UInt8.ofNat b, UInt8.ofNat c]] }
+    | some a, some b, some c => .ok (l.addXid a b c)
     | _, _, _ => .throw .stdOther
-  | ["clear_information_fields"] => .ok { l with infoLen := 0, infos := [] }
+  | ["clear_information_fields"] => .ok l.clearInfos
   | _ => .throw .stdOther
 
 end Llc
